@@ -77,20 +77,30 @@ reproduces exactly: integers below 2^53 in magnitude and multiples of 2^-10 belo
 def fmtFloat (f : Float) : Option String :=
   if f.isNaN || f.isInf then none
   else
-    let neg := f < 0
+    let neg := f < 0 || (f == 0 && f.toBits != 0)   -- `-0` prints as "-0"
     let a := f.abs
     if a ≥ 9007199254740992.0 then none
     else
       let scaled := a * 1024.0
       if scaled.floor != scaled then none
-      else if a ≥ 1.0e21 then none
       else
         let n := scaled.toUInt64.toNat       -- a = n / 1024
         let ip := n / 1024
         let fp := n % 1024                   -- fraction = fp / 1024 = fp * 9765625 / 10^10
         let sign := if neg then "-" else ""
         if fp == 0 then
-          if ip ≥ 1000000000000000000000 then none else some (sign ++ toString ip)
+          if ip ≥ 1000000 then
+            -- `%v` = `strconv.FormatFloat(f, 'g', -1, 64)`: exponent notation from decimal exponent 6 on; the
+            -- shortest round-trip digits of an integer below 2^53 are its digits without trailing zeros
+            let all := (toString ip).toList
+            let digs := (all.reverse.dropWhile (· == '0')).reverse
+            let exp := all.length - 1
+            let mant := match digs with
+              | [] => "0"
+              | [c] => String.singleton c
+              | c :: rest => String.singleton c ++ "." ++ String.ofList rest
+            some (sign ++ mant ++ "e+" ++ (if exp < 10 then "0" else "") ++ toString exp)
+          else some (sign ++ toString ip)
         else if ip ≥ 65536 then none
         else
           let digits := toString (fp * 9765625)
